@@ -126,8 +126,13 @@ package cache
 //@   pure
 //@   ensures result == fileName(ref(f))
 
+// fcloseN counts os.File.Close calls by the current invocation, fclosed is the file closed last.
+//@ ghost fcloseN Int
+//@ ghost fclosed Int
 //@ extern (*os.File).Close(f)
 //@   pure
+//@   gmodifies fcloseN, fclosed
+//@   gensures fcloseN == old(fcloseN) + 1 && fclosed == ref(f)
 
 // fsyncN counts fsync calls by the current invocation.
 //@ ghost fsyncN Int
@@ -181,7 +186,7 @@ package cache
 //@ extern (*sync.Pool).Put(p, x)
 //@   pure
 
-//@ modset ioState() = rdStream, rdN, rdEOF, hStream, hN, bwN, fsyncN
+//@ modset ioState() = rdStream, rdN, rdEOF, hStream, hN, bwN, fsyncN, fcloseN, fclosed
 
 //@ extern io.ReadFull(r, buf)
 //@   modifies elems(buf)
